@@ -7,6 +7,7 @@ import (
 	"io"
 	"math/rand"
 	"net/http"
+	"net/http/httptest"
 	"net/url"
 	"os"
 	"reflect"
@@ -424,6 +425,8 @@ func chainRunOnce(s *Summary, c *chainCase, sp chainSplit, outerPrefix string, c
 	var r *rux.Router
 	decoyMw := func(cx *rux.Context) { cur.log = append(cur.log, []any{"in", -1, cx.IsAborted()}) } // must never run for /x
 	polluted := c.Kind == "route" && n%2 == 0 && chainRunHook == nil
+	// (the extra middleware takes one slot of the handler limit: only for chains well below it)
+	subReq := c.Kind == "route" && c.Escaped != nil && c.Hook != nil && n < 50 && chainRunHook == nil
 	method, path := "GET", "/g/h/x"
 	regPanic := any(nil)
 	func() {
@@ -436,6 +439,18 @@ func chainRunOnce(s *Summary, c *chainCase, sp chainSplit, outerPrefix string, c
 			opts = append(opts, cachingOpts(2)...)
 		}
 		r = newRouter(opts...)
+		if subReq {
+			// first global middleware (it logs nothing and returns, the chain goes on): when asked to by a header it serves a
+			// nested request on the same goroutine before the outer request continues - two requests in flight, deterministically
+			r.Use(func(cx *rux.Context) {
+				if cx.Req.Header.Get("X-Subrequest") != "" {
+					saved := cur
+					cur = &chainRun{rw: &recWriter{hdr: http.Header{}}}
+					r.ServeHTTP(httptest.NewRecorder(), &http.Request{Method: "GET", URL: &url.URL{Path: "/top"}, Header: http.Header{}, Proto: "HTTP/1.1"})
+					cur = saved
+				}
+			})
+		}
 		switch c.Kind {
 		case "route":
 			mw := hs[:n-1]
@@ -598,10 +613,14 @@ func chainRunOnce(s *Summary, c *chainCase, sp chainSplit, outerPrefix string, c
 		s.mismatch(desc("registration-panic", fmt.Sprintf("registration panicked: %v", regPanic)), c)
 		return
 	}
+	withSub := false
 	serve := func() *chainRun {
 		run := &chainRun{rw: &recWriter{hdr: http.Header{}}}
 		cur = run
 		req := &http.Request{Method: method, URL: &url.URL{Path: path}, Header: http.Header{}, Proto: "HTTP/1.1"}
+		if withSub {
+			req.Header.Set("X-Subrequest", "1")
+		}
 		func() {
 			defer func() { run.panicV = recover() }()
 			r.ServeHTTP(run.rw, req)
@@ -745,6 +764,17 @@ func chainRunOnce(s *Summary, c *chainCase, sp chainSplit, outerPrefix string, c
 		again := serve()
 		if !reflect.DeepEqual(again.log, run.log) || (again.panicV != nil) != (run.panicV != nil) || (c.CheckW && !reflect.DeepEqual(again.rw.calls, run.rw.calls)) {
 			s.mismatch(desc("unhealthy", fmt.Sprintf("the same request repeated after the panic: log %v writer %v, first time %v %v", again.log, again.rw.calls, run.log, run.rw.calls)), c)
+			return
+		}
+		if subReq {
+			// ... and once more with another request served while this one is in flight (a context must not be in the pool twice)
+			withSub = true
+			third := serve()
+			withSub = false
+			if !reflect.DeepEqual(third.log, run.log) || (third.panicV != nil) != (run.panicV != nil) || (c.CheckW && !reflect.DeepEqual(third.rw.calls, run.rw.calls)) {
+				s.mismatch(desc("unhealthy", fmt.Sprintf("the same request after the panic, with a nested request served while it is in flight: log %v writer %v, first time %v %v",
+					third.log, third.rw.calls, run.log, run.rw.calls)), c)
+			}
 		}
 	}
 }
